@@ -376,6 +376,31 @@ func genCverCase(rt *rapid.T) cverCase {
 	return c
 }
 
+var fuzz12Run *evid.Run
+var fuzz12Once sync.Once
+
+// FuzzC12Version: coverage-guided search over version strings (thorough tier).
+func FuzzC12Version(f *testing.F) {
+	for _, s := range []string{"9P2000.L", "9P2000.L.Google.7", "9P2000.L.Google.0", "9P2000.L.Google.4294967296", "9P2000.L.Google.007", "9P2000", "9P2000.u", "unknown", "9P2000.L.Google.", "9P2000.L.Google.+1"} {
+		f.Add(uint32(8192), s)
+		f.Add(uint32(0), s)
+	}
+	f.Fuzz(func(t *testing.T, msize uint32, version string) {
+		if len(version) > 60000 {
+			return
+		}
+		c := verCase{Msize: msize, Version: []byte(version), Tag: refcodec.NOTAG}
+		if fl := runVerCase(c); fl != nil {
+			fuzz12Once.Do(func() { fuzz12Run = evid.Begin(t, "C12") })
+			if fuzz12Run.Known(fl.Sig) {
+				return
+			}
+			fuzz12Run.Violation("server", fl.Sig, fl.Msg, c)
+			t.Fatalf("FUZZ-VIOLATION replay=%s [%s] %s", fuzz12Run.ReplayPath("server", fl.Sig), fl.Sig, fl.Msg)
+		}
+	})
+}
+
 func init() {
 	replayRegistrars = append(replayRegistrars, func() {
 		registerReplay("C12/server", runVerCase)
